@@ -270,6 +270,19 @@ def run(ctx, idx):
                                 guarded = True
                 if not guarded and n.args and isinstance(n.args[0], ast.Constant) and "escape" in str(n.args[0].value):
                     probs.append("`%s` can raise UnicodeDecodeError on a malformed escape and nothing converts it to SyntaxError" % K.src(n)[:60])
+            if isinstance(n, ast.Call) and K.src(n.func).split(".")[-1] in ("escape_decode", "escape_encode"):
+                # codecs.escape_decode reports a malformed escape (`\x` without two hex digits) as a plain ValueError,
+                # not as UnicodeDecodeError
+                covered = False
+                for t in ast.walk(fn):
+                    if isinstance(t, ast.Try) and any(n is x for b in t.body for x in ast.walk(b)):
+                        for h in t.handlers:
+                            hs = K.src(h.type) if h.type is not None else ""
+                            names = {x_.strip() for x_ in hs.strip("()").split(",")} if hs else {""}
+                            if names & {"ValueError", "Exception", "BaseException", ""} and any(isinstance(x, ast.Raise) and x.exc is not None and "SyntaxError" in K.src(x.exc) for x in ast.walk(h)):
+                                covered = True
+                if not covered:
+                    probs.append("`%s` reports a malformed escape (`\\x` without two hex digits) as ValueError, which the handler (UnicodeDecodeError) does not catch: it escapes from the lexer as a foreign exception instead of a syntax error" % K.src(n)[:50])
             if isinstance(n, ast.Raise) and n.exc is not None and "SyntaxError" not in K.src(n.exc):
                 probs.append("raises %s" % K.src(n.exc)[:40])
         if probs:
